@@ -18,7 +18,7 @@ import (
 //	kind 5 a value no codec accepts                               -> error
 // vLongLens: value lengths around the sizes at which buffers and length
 // fields commonly change behaviour.
-var vLongLens = []int{59, 60, 61, 62, 63, 64, 65, 66, 127, 128, 129, 255, 256, 257, 4095, 4096, 4097}
+var vLongLens = []int{59, 60, 61, 62, 63, 64, 65, 66, 127, 128, 129, 255, 256, 257, 4095, 4096, 4097, 5000, 8200}
 
 func vValue(maxLen int) (src any, null bool, payload []byte, unenc bool) {
 	if vParam("LONGVALS", 0) > 0 && nondetBool() {
